@@ -2,6 +2,7 @@ import MgProof.C13.LemmasTrace
 import MgProof.C13.LemmasPoll
 import MgProof.C13.LemmasSelect
 import MgProof.C13.LemmasEpoll
+import MgProof.C13.LemmasReady
 /-!
 # C13 — property theorems (event loop callback life-cycle; select, poll, epoll agree)
 
@@ -137,6 +138,48 @@ theorem add_at_most_once (c : Nat) :
   exact chrono_add_once (loopEnd_inv b hints legacy kinds pre sc fuel).wf c
 
 end LifeCycle
+
+/-! ### clause 2: pending input is never slept on (level-triggered back-ends) -/
+
+/-- **Clause 2, poll** — whenever `poll` would block, no context of `ctx_list` is readable:
+the loop never goes to sleep while a registered context has pending input (or a pending
+end-of-stream). Every script, every `hints_max_fd`, both accountings. -/
+theorem poll_never_sleeps_on_pending (hints : Nat) (legacy : Bool) (kinds : List Kind) (pre : List Act)
+    (sc : Script) (fuel : Nat) :
+    Ev.sleep true ∉ (scenario .poll hints legacy kinds pre sc fuel).events := by
+  rw [run_events]
+  have h0 : PInv (runActs pre (initSt .poll hints legacy kinds)) :=
+    runActs_pinv pre ⟨rfl, by simp [initSt], by simp [initSt], by simp [initSt, NoLost]⟩
+  have i0 : Inv none (runActs pre (initSt .poll hints legacy kinds)) :=
+    runActs_inv pre (initSt_inv _ _ _ _)
+  have hb : (runActs pre (initSt .poll hints legacy kinds)).backend = .poll := h0.backend
+  have h1 : NoLost (loopEnd .poll hints legacy kinds pre sc fuel).trace := by
+    unfold loopEnd backendRun
+    rw [hb]
+    exact (pollLoop_pinv sc fuel h0 i0).noLost
+  intro hh
+  simp [St.events] at hh
+  exact h1 hh
+
+/-- **Clause 2, select** — the same for `select`; this is the *rebuild lemma*: at the end of
+every dispatch `allset/nfds` again cover every context of `ctx_list` (survivors and the ones
+added by callbacks), whatever was removed or added during the scan. -/
+theorem select_never_sleeps_on_pending (hints : Nat) (legacy : Bool) (kinds : List Kind)
+    (pre : List Act) (sc : Script) (fuel : Nat) :
+    Ev.sleep true ∉ (scenario .select hints legacy kinds pre sc fuel).events := by
+  rw [run_events]
+  have c0 : SelC (initSt .select hints legacy kinds) :=
+    ⟨rfl, rfl, by simp [initSt], by simp [initSt, NoLost]⟩
+  have h0 : SelC (runActs pre (initSt .select hints legacy kinds)) := c0.step (runActs_srel _ _)
+  have i0 : Inv none (runActs pre (initSt .select hints legacy kinds)) :=
+    runActs_inv pre (initSt_inv _ _ _ _)
+  have h1 : NoLost (loopEnd .select hints legacy kinds pre sc fuel).trace := by
+    unfold loopEnd backendRun
+    rw [h0.backend]
+    exact selLoop_c sc fuel h0 i0
+  intro hh
+  simp [St.events] at hh
+  exact h1 hh
 
 /-! ### non-vacuity: a concrete script on which all the events above occur -/
 
